@@ -184,7 +184,7 @@ def run(tier, seed):
         else ["PaySendMCt.cfg", "PaySendMC2t.cfg", "PaySendMC3t.cfg", "PaySendMCr2.cfg", "PaySendMCst.cfg", "PaySendMCs3t.cfg"],
         compile_fn=lambda s, rng, consts: pc.compile_send_script(s, rng),
         random_fn=lambda rng, consts: pc.random_send_script(rng),
-        n_tlc=7500 if thorough else 900, n_rand=12000 if thorough else 1000,
+        n_tlc=7500 if thorough else 800, n_rand=12000 if thorough else 900,
         need={"ev_PaymentSent": 50, "ev_PaymentFailed": 50, "ev_PaymentPathFailed": 50, "restart": 30, "send_dup": 20,
               "send_multipart": 50, "runs_with_repeated_PaymentSent": 3, "runs_with_repeated_PaymentFailed": 3, "restart_stale": 100, "pathfailed_hop3": 20, "quiet": 100,
               "chain_commitment": 100, "chain_htlc_claimed": 20, "chain_htlc_timeout": 20, "quiet_chain_settled": 100},
